@@ -203,18 +203,22 @@ def check_l1(run: Run, prog: Program) -> dict[str, Ledgers]:
             if not cells and not upd:
                 continue
             if not upd:
-                # cells change, no ledger in this suite: allowed only if the net change is zero
-                # or the cells are created from another ledger-neutral re-split (handled by L3)
-                if lg.mirrors and not cell_sum.is_zero():
-                    for s, d in cells:
-                        run.violation("C01.L1", fn.qual, s,
-                                      f"allocation cell changes by `{d!r}` but the mirror ledger "
-                                      f"{sorted(lg.mirrors)} is not updated in the same suite",
-                                      node=s, file=fn.file)
-                else:
-                    run.ok("C01.L1", f"{fn.qual}: suite@{suite[0].lineno} cells {cell_sum!r} (no "
-                           "mirror in this function)" if not lg.mirrors else
-                           f"{fn.qual}: suite@{suite[0].lineno} zero-valued cell creation")
+                # cells change, no ledger in this suite: allowed only if every non-zero store is the
+                # transfer of a whole input cell (`out[k] = <input cell>.power`); anything else creates
+                # or loses power whether or not the function keeps a mirror
+                stray = [(s, d) for s, d in cells if not d.is_zero()
+                         and not any(d == Poly.atom(f"{x}.power") for x in lg.cell_objs)]
+                if lg.mirrors:
+                    stray = [(s, d) for s, d in cells if not d.is_zero()]
+                for s, d in stray:
+                    run.violation("C01.L1", fn.qual, s,
+                                  f"allocation cell changes by `{d!r}` but no ledger "
+                                  f"{sorted(ledgers)} is updated in the same suite and the value is not a "
+                                  "whole input cell: power is created or lost", node=s, file=fn.file)
+                if not stray:
+                    run.ok("C01.L1", f"{fn.qual}: suite@{suite[0].lineno} cells {cell_sum!r} "
+                           + ("(transfer of input cells / zero-valued creation)" if not cell_sum.is_zero()
+                              else "(zero-valued cell creation)"))
                 continue
             for name, delta in upd.items():
                 want = cell_sum if name in lg.mirrors else -cell_sum
@@ -227,7 +231,62 @@ def check_l1(run: Run, prog: Program) -> dict[str, Ledgers]:
                               node=s, file=fn.file,
                               instance=f"{fn.qual}: suite@{suite[0].lineno} Δ{name}={delta!r} "
                                        f"Δcells={cell_sum!r}")
+        # a mirror ledger starts at zero (no cell exists yet) or continues another mirror
+        for m in sorted(lg.mirrors):
+            plain = [st for st in walk_no_nested(fn.node) if isinstance(st, (ast.Assign, ast.AnnAssign))
+                     and getattr(st, "value", None) is not None and any(u(w) == m for w in _targets(st))
+                     and lg.name_update(st) is None]
+            ok = all(isinstance(st, (ast.Assign, ast.AnnAssign)) and not isinstance(
+                st.targets[0] if isinstance(st, ast.Assign) else st.target, ast.Tuple) and (
+                    lg.te.ev(st.value).is_zero() or lg.te.ev(st.value).as_atom() in lg.mirrors) for st in plain)
+            run.check(ok and bool(plain), "C01.L1", fn.qual, f"{m} = 0",
+                      f"the mirror ledger `{m}` does not start at zero: the reported remainder is off by its "
+                      "initial value", node=(plain or [fn.node])[0], file=fn.file,
+                      instance=f"{fn.qual}: mirror ledger `{m}` starts at zero")
+        _check_carry_over(run, fn, lg)
     return out
+
+
+def _check_carry_over(run: Run, fn: FuncInfo, lg: Ledgers) -> None:
+    """A routine that re-splits input cells (a cell-dict parameter) into a new cell dict must carry every
+    input cell over: each iteration over the input either stores the whole `cell.power` into the new
+    map or starts a complement ledger with it (whose residual L1/L2/L3 follow)."""
+    from ._c15_util import loop_binding
+
+    a = fn.node.args
+    params = {x.arg for x in a.posonlyargs + a.args + a.kwonlyargs}
+    ins, outs = lg.cell_dicts & params, lg.cell_dicts - params
+    if not ins or not outs:
+        return
+    cfg = CFG(fn.node, fn.file)
+    for h in cfg.nodes:
+        if h.kind != "for" or not isinstance(h.ast, ast.For):
+            continue
+        b = loop_binding(h.ast)
+        if b is None or b[0] not in ins:
+            continue
+        cellv = Poly.atom(f"{b[2]}.power") if b[2] is not None else Poly.atom(f"{b[0]}[{b[1]}].power")
+        first = [m for m, lab in cfg.succ[h.id] if lab == "iter"]
+        body = cfg.reachable(first, avoid=[h.id])
+        carry = []
+        for x in body:
+            st = cfg.nodes[x].ast
+            if cfg.nodes[x].kind != "stmt" or not isinstance(st, (ast.Assign, ast.AnnAssign)) or st.value is None:
+                continue
+            tgt = st.targets[0] if isinstance(st, ast.Assign) and len(st.targets) == 1 else getattr(st, "target", None)
+            if lg.te.ev(st.value) != cellv:
+                continue
+            if isinstance(tgt, ast.Subscript) and u(tgt.value) in outs:
+                carry.append(x)
+            elif isinstance(tgt, ast.Name) and tgt.id in lg.complements:
+                carry.append(x)
+        wit = cfg.path(first[0], [h.id, cfg.exit], avoid=carry,
+                       edge_ok=lambda _a, _b, lab: not lab.startswith("exc:")) if first and first[0] not in carry else None
+        run.check(wit is None, "C01.L1", fn.qual, f"every input cell of `{b[0]}` is carried over",
+                  "an input cell can be dropped: an iteration neither stores its whole power into the new "
+                  "set-point map nor starts a remainder ledger with it (its power is lost)",
+                  node=h.ast, file=fn.file, path=cfg.describe_path(wit),
+                  instance=f"{fn.qual}: every input cell is carried into the new map or a complement ledger")
 
 
 # ---------------------------------------------------------------------------------------------
@@ -578,6 +637,14 @@ def check_l3(run: Run, prog: Program, ledgers: dict[str, Ledgers]) -> None:
     zero_paths = [p for p in paths if p.exit == "return" and _is_dr(p.ret)]
     ok = bool(zero_paths)
     for p in zero_paths:
+        # ... and only on a path where the request was tested to be (close to) zero
+        ok = ok and any(
+            (isinstance(atom, ast.Call) and u(atom.func).split(".")[-1] == "is_close_to_zero" and len(atom.args) == 1
+             and te.ev(atom.args[0]) == Poly.atom(power) and o)
+            or (isinstance(atom, ast.Compare) and len(atom.ops) == 1 and isinstance(atom.ops[0], (ast.Eq, ast.NotEq))
+                and {repr(te.ev(atom.left)), repr(te.ev(atom.comparators[0]))} == {power, "0"}
+                and o == isinstance(atom.ops[0], ast.Eq))
+            for (_k, _ko, atom, _ln, o) in p.conds)
         f = bound_args(p.ret, dr_fields, f"{dp.qual}: DistributionResult(...)")  # type: ignore[arg-type]
         cells = f.get("distribution")
         ok = ok and isinstance(cells, ast.DictComp) and te.ev(cells.value).is_zero() \
@@ -822,6 +889,13 @@ def check_sign(run: Run, prog: Program) -> None:
             table = [(u(n.targets[0]), v.body if pol else v.orelse, v.orelse if pol else v.body, n)]
         for k, sv, cv, node in table:
             pairs += 1
+            sides = (_leaves(bound_form(sv)), _leaves(bound_form(cv)))
+            oriented = all(sign == "neg" and "lower" in txt for sign, txt in sides[0]) \
+                and all(sign == "pos" and "upper" in txt for sign, txt in sides[1])
+            run.check(oriented, "C01.S", ib.qual, f"{k}: supply uses -<lower bounds>, consume <upper bounds>",
+                      f"the arm taken for supply requests does not bound `{k}` by the negated lower bounds (or the "
+                      "consume arm not by the upper bounds): the two directions are exchanged",
+                      node=node, file=ib.file, instance=f"{ib.qual}: {k} supply arm uses negated lower bounds")
             run.check(dual_form(sv) == bound_form(cv), "C01.S", ib.qual,
                       f"{k} = {u(sv)}",
                       f"the supply bound `{k} = {u(sv)}` is not the mirror image "
@@ -851,6 +925,12 @@ def bound_form(e: ast.AST, neg: bool = False) -> Any:
             name = "min" if name == "max" else "max"
         return (name, frozenset(bound_form(a, neg) for a in e.args))
     return ("neg" if neg else "pos", u(e))
+
+
+def _leaves(f: Any) -> list[tuple[str, str]]:
+    if f[0] in ("min", "max"):
+        return [x for k in f[1] for x in _leaves(k)]
+    return [f]
 
 
 def dual_form(e: ast.AST) -> Any:
@@ -980,6 +1060,7 @@ def check_b(run: Run, prog: Program) -> None:
               "reported as succeeded/excess no longer matches what is commanded", node=(tampered or [gp.node])[0],
               file=gp.file, instance=f"{gp.qual}: the algorithm's result is returned untouched")
     gd = norm(f"{BM}._get_distribution")
+    run.analysed(gd.qual)
     gd_req = typed(gd, "Request", "request")
     gp0 = prog.func(f"{BM}._get_power_distribution")
     dcalls = find_calls(gd.node, lambda c: method_call(c, "self", "_get_power_distribution"))
@@ -993,27 +1074,39 @@ def check_b(run: Run, prog: Program) -> None:
     # what is subtracted from the reported set power as "failed" covers every call booked as failed:
     # in the result loop of _parse_result the failed set and the failed power are updated together
     # (roles bound by dataflow from PartialFailure back through _set_distributed_power, see C15)
-    from .c15 import BatteryRoles, booking_nodes, iteration_path_with_only, result_loop
+    from ._c15_util import guarded_by_emptiness
+    from .c15 import BatteryRoles, check_fail
 
     roles = BatteryRoles(prog)
     pr = roles.pr
     run.analysed(pr.qual)
-    pcfg = CFG(pr.node, pr.file)
-    _r, hdr, key_var, _tasks, body = result_loop(pcfg, pr.qual)
-    fp_nodes, fs_nodes, _stray, _allocs = booking_nodes(pcfg, body, key_var, roles.pr_pow, roles.pr_set)
-    first = [m for m, lab in pcfg.succ[hdr.id] if lab == "iter"][0]
-    flags = pcfg.bool_flags()
-    wit = None
-    ok = bool(fp_nodes) and bool(fs_nodes)
-    if ok:
-        wit = iteration_path_with_only(pcfg, first, hdr.id, fs_nodes, fp_nodes, flags) \
-            or iteration_path_with_only(pcfg, first, hdr.id, fp_nodes, fs_nodes, flags)
-        ok = wit is None
-    run.check(ok, "C01.B", pr.qual, "a call booked as failed has its set-point booked as failed power",
-              "a set_power call can be booked in the failed set without its set-point being added to the failed "
-              "power (or vice versa): the power reported as set includes a set-point the hardware never accepted",
-              node=pr.node, file=pr.file, path=pcfg.describe_path(wit),
-              instance=f"{pr.qual}: failed set and failed power are booked together")
+    scratch = Run("C15", run.tier, run.seed)
+    for rule, node, msg in roles.issues:
+        scratch.violation(rule, roles.dp.qual, node, msg, node=node, file=roles.dp.file)
+    check_fail(scratch, prog, roles, battery_only=True)
+    bad = scratch.violations
+    run.check(not bad, "C01.B", pr.qual, "failed power == sum of the set-points of the calls booked as failed",
+              "the failed power subtracted from the reported set power is not exactly the set-points of the calls "
+              "that failed, so the power reported as set is not the power the hardware accepted"
+              + (f": [{bad[0].rule}] {bad[0].construct}: {bad[0].message}" if bad else ""),
+              node=pr.node, file=pr.file, path=bad[0].path if bad else None,
+              instance=f"{pr.qual}: failed power is exactly the set-points of the failed calls")
+    # Success (no failed power subtracted) is reported only when nothing failed
+    ok = True
+    n_success = 0
+    writes = [n.id for n in roles.dp_cfg.nodes if n.ast is not None and n.kind in ("stmt", "for", "with")
+              and any(u(w) == roles.failed_set for w in node_writes(roles.dp_cfg, n.id))]
+    for c in all_ctors(roles.dp.node):
+        if ctor_kind(c) != "Success":
+            continue
+        n_success += 1
+        sites = roles.dp_cfg.node_containing(c)
+        ok = ok and bool(sites) and len(writes) == 1 and guarded_by_emptiness(
+            roles.dp_cfg, sites[0], c, roles.failed_set, want_nonempty=False)
+    run.check(ok and n_success > 0, "C01.B", roles.dp.qual, "Success only when no call failed",
+              "the whole distributed power can be reported as set although some set_power calls failed",
+              node=roles.dp.node, file=roles.dp.file,
+              instance=f"{roles.dp.qual}: Success is reported only when the failed set is empty")
     sd = norm(f"{BM}._set_distributed_power")
     run.analysed(sd.qual)
     sd_dist = typed(sd, "DistributionResult", "distribution")
@@ -1051,6 +1144,25 @@ CONTROLS = [
      "            failed = True\n            try:\n",
      "            if aws.cancelled():\n                failed_batteries.update(battery_ids)\n                continue\n"
      "            failed = True\n            try:\n", "C01.B"),
+    ("Success reported although one call failed",
+     "microgrid._power_distributing._component_managers._battery_manager",
+     "        if len(failed_batteries) > 0:\n", "        if len(failed_batteries) > 1:\n", "C01.B"),
+    ("failed power starts at one watt",
+     "microgrid._power_distributing._component_managers._battery_manager",
+     "        failed_power: float = 0.0\n", "        failed_power: float = 1.0\n", "C01.B"),
+    ("single-inverter set dropped by the split", MOD,
+     "                new_distribution[inverter_id] = power.power\n", "                pass\n", "C01.L1"),
+    ("set-point created without a ledger", MOD,
+     "                        new_distribution[inverter_id] = 0.0\n",
+     "                        new_distribution[inverter_id] = 1.0\n", "C01.L1"),
+    ("mirror ledger starts at one watt", MOD,
+     "        distributed_power: float = 0.0\n", "        distributed_power: float = 1.0\n", "C01.L1"),
+    ("supply and consume bound arms exchanged", MOD,
+     "            if supply:\n                excl_bounds[battery.component_id] = (",
+     "            if not supply:\n                excl_bounds[battery.component_id] = (", "C01.S"),
+    ("zero answer given to non-zero requests", MOD,
+     "        if is_close_to_zero(power):\n            return DistributionResult(",
+     "        if not is_close_to_zero(power):\n            return DistributionResult(", "C01.L3"),
     ("mirror ledger bumped without a cell", MOD,
      "            distributed_power += excess\n", "            distributed_power += excess\n            distributed_power += 0.1\n",
      "C01.L1"),
